@@ -17,3 +17,5 @@ Definition mism_page := Eval vm_compute in
 Print mism_page.
 Definition mism_query := Eval vm_compute in failing session_matches cases_query.
 Print mism_query.
+Definition mism_apipage := Eval vm_compute in failing apipage_model cases_apipage.
+Print mism_apipage.
